@@ -173,23 +173,11 @@ func init() {
 		if !ok2 {
 			return nil, false
 		}
-		t := e.P.lookupType("github.com/jcmturner/rpc/v2/mstypes.RPCSID")
-		if t == nil {
+		r0 := e.sidString(st)
+		if r0 == nil {
 			return nil, false
 		}
-		si := structInfo(t)
-		var sub *Term
-		for i, f := range si.Fields {
-			if f.Name == "SubAuthority" {
-				sub = FieldSel(si, st, i)
-			}
-		}
-		if sub == nil {
-			return nil, false
-		}
-		arr := e.backingCanon(sub, types.Typ[types.Uint32])
-		e.declareRaw("(declare-fun uf.sidstring (" + si.Sort + " (Array (_ BitVec 64) (_ BitVec 32))) Str)")
-		r := e.vc.Define("sidstr", App("uf.sidstring", SStr, st, arr))
+		r := e.vc.Define("sidstr", r0)
 		e.vc.Assume(True, App("str_ok", SBool, r))
 		return r, true
 	}
@@ -245,6 +233,36 @@ func init() {
 			}
 		}
 	}
+	// the same through the ByteOrder interface when the dynamic type is not known on the path (an order chosen by a
+	// conditional): both layouts, selected by the tag
+	for _, w := range []int{16, 32, 64} {
+		w := w
+		goModels["(encoding/binary.ByteOrder).Uint"+itoa(w)] = func(e *Exec, c *ssa.CallCommon, a []Val, in ssa.Instruction) (Val, bool) {
+			it, ok := a[0].(*Term)
+			if !ok || IfTag(it).IsLit() {
+				return nil, false
+			}
+			e.trust("a ByteOrder value that is not binary.BigEndian is binary.LittleEndian")
+			return Ite(e.orderIsBig(it), modelGetUint(e, a[1].(*Term), w, true), modelGetUint(e, a[1].(*Term), w, false)), true
+		}
+		goModels["(encoding/binary.ByteOrder).PutUint"+itoa(w)] = func(e *Exec, c *ssa.CallCommon, a []Val, in ssa.Instruction) (Val, bool) {
+			it, ok := a[0].(*Term)
+			if !ok || IfTag(it).IsLit() {
+				return nil, false
+			}
+			e.trust("a ByteOrder value that is not binary.BigEndian is binary.LittleEndian")
+			b := a[1].(*Term)
+			n, hs := elemHeap(types.Typ[types.Byte])
+			h0 := e.heapGet(n, hs)
+			modelPutUint(e, b, a[2].(*Term), w, true)
+			hb := e.heapGet(n, hs)
+			e.heapSet(n, h0)
+			modelPutUint(e, b, a[2].(*Term), w, false)
+			hl := e.heapGet(n, hs)
+			e.heapSet(n, Ite(e.orderIsBig(it), hb, hl))
+			return nil, true
+		}
+	}
 	deferModels = map[string]func(e *Exec, d deferRec){
 		"(*sync.RWMutex).Unlock":  func(e *Exec, d deferRec) { e.lockOp(d.args[0], 2, false, d.g) },
 		"(*sync.RWMutex).RUnlock": func(e *Exec, d deferRec) { e.lockOp(d.args[0], 1, false, d.g) },
@@ -267,6 +285,28 @@ func (e *Exec) trust(s string) { e.vc.Trusted["model: "+s] = true }
 func modelIdentity0(e *Exec, c *ssa.CallCommon, a []Val, in ssa.Instruction) (Val, bool) {
 	e.trust("time.Time.UTC/Local identity on instants (locations and monotonic readings ignored)")
 	return a[0], true
+}
+
+// sidString: the model of mstypes.RPCSID.String, an uninterpreted function of the SID value and of the
+// contents of its sub-authority array (contract builtin sidstr(x)).
+func (e *Exec) sidString(st *Term) *Term {
+	t := e.P.lookupType("github.com/jcmturner/rpc/v2/mstypes.RPCSID")
+	if t == nil {
+		return nil
+	}
+	si := structInfo(t)
+	var sub *Term
+	for i, f := range si.Fields {
+		if f.Name == "SubAuthority" {
+			sub = FieldSel(si, st, i)
+		}
+	}
+	if sub == nil {
+		return nil
+	}
+	arr := e.backingCanon(sub, types.Typ[types.Uint32])
+	e.declareRaw("(declare-fun uf.sidstring (" + si.Sort + " (Array (_ BitVec 64) (_ BitVec 32))) Str)")
+	return App("uf.sidstring", SStr, st, arr)
 }
 
 func modelNow(e *Exec, c *ssa.CallCommon, a []Val, in ssa.Instruction) (Val, bool) {
